@@ -48,6 +48,16 @@ def trace_ops(rng, tier):
             for k in keys:
                 ops.append({"op": k})
                 ops.append({"op": "edge", "n": 25})
+    # ... the same with the key interrupt enabled (LDSP; MOV (0xF9),1; EI first) and the key pressed before / after the continue key:
+    # the first register write after the continue key is then the DEC SP of the interrupt entry, not a PC write
+    for ps, t in [(39, 39), (38, 39), (40, 39), (39, 30)]:
+        for keys in (["key_int", "continue"], ["continue", "key_int"], ["key_int", "key_int", "continue", "continue"], ["continue"]):
+            img = [251, 239, 64, 251, 1, 31, 249, 8, 251, t, 19] + [2] * 28 + [1, 68, 240, 31, 255, 68, 2, 1, 32, 254]
+            ops.append({"op": "load", "image": img, "ss": 16, "ps": ps})
+            ops.append({"op": "edge", "n": 90})
+            for k in keys:
+                ops.append({"op": k})
+                ops.append({"op": "edge", "n": 30})
     # STOP (and the error opcode) as the SECOND byte of every two-byte form: the halt is recognised wherever the byte is latched as an opcode
     for b in range(240, 256):
         for b2 in (1, 0):
